@@ -19,6 +19,7 @@
 
 #define VX_BIG 1000000000L
 enum cv_status { cv_status_no_timeout = 0, cv_status_timeout = 1, cv_status_error = 2 };
+typedef enum cv_status cv_status;
 enum pika_error { pika_error_success = 0 };
 struct error_code { int value; };
 static struct error_code vx_throws, g_ec;
@@ -27,9 +28,40 @@ static bool vx_ec_bool(struct error_code *ec) { return ec->value != pika_error_s
 static long g_int_releases, g_int_acquires;   /* release / acquire points of the internal lock (saturating) */
 static bool g_int_held_since_user_unlock;     /* O1: no release of the internal lock since the user lock was released */
 static bool g_stop_checked_false_in_cs;       /* stop_requested() returned false in the current critical section of the internal lock */
-#define MON_AT_RELEASE() do { g_int_held_since_user_unlock = false; if (g_int_releases < VX_BIG) g_int_releases++; } while (0)
-#define MON_AT_ACQUIRE() do { g_stop_checked_false_in_cs = false; if (g_int_acquires < VX_BIG) g_int_acquires++; } while (0)
+static long g_blk_count(void);
+#define MON_AT_RELEASE() do { VX_ASSERT(g_blk_count() > 0, "the internal mutex is unlocked after the data block was freed (block not kept alive across the wait)"); g_int_held_since_user_unlock = false; if (g_int_releases < VX_BIG) g_int_releases++; } while (0)
+#define MON_AT_ACQUIRE() do { VX_ASSERT(g_blk_count() > 0, "the internal mutex is locked after the data block was freed (block not kept alive across the wait)"); g_stop_checked_false_in_cs = false; if (g_int_acquires < VX_BIG) g_int_acquires++; } while (0)
 #include "monitor.h"
+
+/* std::unique_lock<mutex_type> on the internal lock.  At most one is alive at a time in these functions; its `owns` flag is the ghost
+ * g_il_owns rather than a field (CBMC's loop-contract instrumentation rejects writes to a loop-local object on a loop-exit path,
+ * which is where `return` inside the stop-token loops runs the destructor). */
+struct ilock { struct vx_mutex *m; };
+static bool g_il_owns;
+static struct ilock ilock_make(struct vx_mutex *m)
+{
+  struct ilock l;
+  VX_ASSERT(!g_il_owns, "ghost: one unique_lock on the internal lock at a time");
+  mon_acquire(m);
+  l.m = m;
+  g_il_owns = true;
+  return l;
+}
+static void ilock_dtor(struct ilock *l) { if (g_il_owns) { mon_release(l->m); g_il_owns = false; } }
+static void ilock_unlock(struct ilock *l)
+{
+  VX_ASSERT(g_il_owns, "unique_lock::unlock without ownership");
+  mon_release(l->m);
+  g_il_owns = false;
+}
+static void ilock_lock(struct ilock *l)
+{
+  VX_ASSERT(!g_il_owns, "unique_lock::lock while owning");
+  mon_acquire(l->m);
+  g_il_owns = true;
+}
+static struct ilock ilock_move(struct ilock *l) { return *l; }   /* std::move(l): ownership (the ghost flag) goes with the value */
+#define IL_OWNS(l) (g_il_owns && (l).m == &g_blk->mtx_ && g_blk->mtx_.held)
 
 struct dcv { int unused; };                                        /* detail::condition_variable */
 struct cvdata { struct vx_mutex mtx_; struct dcv cond_; long count_; };   /* detail::condition_variable_data */
@@ -50,10 +82,11 @@ static long g_pred_calls;                       /* predicate evaluations (satura
 static bool g_last_pred;                        /* value of the last one */
 static bool g_user_released_since_pred;         /* the user lock was released after the last predicate evaluation */
 
-#define PUB_GHOST g_int_releases, g_int_acquires, g_int_held_since_user_unlock, g_stop_checked_false_in_cs, g_blk->mtx_.held, g_blk->count_, \
+#define PUB_GHOST g_int_releases, g_int_acquires, g_int_held_since_user_unlock, g_stop_checked_false_in_cs, g_il_owns, g_blk->mtx_.held, g_blk->count_, \
                   g_user->held, g_self_dead, g_user_unlocks, g_user_locks, g_dwaits, g_last_wake, g_last_timed, g_dnotify_one, g_dnotify_all, \
                   g_pred_calls, g_last_pred, g_user_released_since_pred, g_stop, g_stop_seen, g_cb_registered, g_cb_runs_here, vx_exc
 
+static long g_blk_count(void) { return g_blk->count_; }
 /* ---- the data block and the intrusive_ptr that keeps it alive --------------------------------------------------- */
 static struct cvdata *vx_blk(struct cvdata *d)
 {
@@ -107,24 +140,24 @@ static void user_lock(struct userlock *l)
 }
 
 /* ---- contract of detail::condition_variable (proved by the cv.* units) ------------------------------------------- */
-static int dcv_block(struct dcv *c, struct ulock *l, bool timed);
+static int dcv_block(struct dcv *c, struct ilock *l, bool timed);
 /* wait(l, ec): enqueues under the lock, releases it only inside the suspension, re-acquires; signaled iff a notifier dequeued
  * the caller, otherwise timeout; never touches ec */
-static int dcv_wait(struct dcv *c, struct ulock *l, struct error_code *ec) { return dcv_block(c, l, false); }
-static int dcv_wait_until(struct dcv *c, struct ulock *l, long abs_time, struct error_code *ec) { return dcv_block(c, l, true); }
+static int dcv_wait(struct dcv *c, struct ilock *l, struct error_code *ec) { return dcv_block(c, l, false); }
+static int dcv_wait_until(struct dcv *c, struct ilock *l, long abs_time, struct error_code *ec) { return dcv_block(c, l, true); }
 /* notify_one / notify_all(std::move(l), ec): by-value lock released on return */
-static bool dcv_notify_one(struct dcv *c, struct ulock l, struct error_code *ec)
+static bool dcv_notify_one(struct dcv *c, struct ilock l, struct error_code *ec)
 {
-  VX_ASSERT(vx_owns_v(l) && l.m == &g_blk->mtx_, "internal notify_one called without the internal lock");
+  VX_ASSERT(IL_OWNS(l), "internal notify_one called without the internal lock");
   if (g_dnotify_one < 2) g_dnotify_one++;
-  ulock_dtor(&l);
+  ilock_dtor(&l);
   return nondet_bool();
 }
-static void dcv_notify_all(struct dcv *c, struct ulock l, struct error_code *ec)
+static void dcv_notify_all(struct dcv *c, struct ilock l, struct error_code *ec)
 {
-  VX_ASSERT(vx_owns_v(l) && l.m == &g_blk->mtx_, "internal notify_all called without the internal lock");
+  VX_ASSERT(IL_OWNS(l), "internal notify_all called without the internal lock");
   if (g_dnotify_all < 2) g_dnotify_all++;
-  ulock_dtor(&l);
+  ilock_dtor(&l);
 }
 
 /* ---- predicate, deadlines ---------------------------------------------------------------------------------------- */
@@ -175,9 +208,9 @@ static void stop_callback_dtor(struct stop_callback *cb)
   g_cb_registered = false;
 }
 
-static int dcv_block(struct dcv *c, struct ulock *l, bool timed)
+static int dcv_block(struct dcv *c, struct ilock *l, bool timed)
 {
-  VX_ASSERT(vx_owns_p(l) && l->m == &g_blk->mtx_, "internal wait called without the internal lock");
+  VX_ASSERT(IL_OWNS(*l), "internal wait called without the internal lock");
   VX_ASSERT(!g_user->held, "O3: the caller blocks while still holding the user lock");
   VX_ASSERT(g_int_held_since_user_unlock, "O1: the internal lock was not held continuously from the release of the user lock to the enqueue");
 #ifdef STOP_FORMS
@@ -191,11 +224,13 @@ static int dcv_block(struct dcv *c, struct ulock *l, bool timed)
 #endif
   if (g_dwaits < 2) g_dwaits++;
   g_last_timed = timed;
-  ulock_unlock(l);
+  ilock_unlock(l);
   env_destroy();                              /* ~condition_variable() by another thread */
   if (!g_stop) g_stop = nondet_bool();        /* request_stop() by another thread (its callback notifies all: we wake up) */
-  ulock_lock(l);
+  ilock_lock(l);
+#ifndef NO_EXC
   if (nondet_bool()) vx_exc = 1;              /* the suspension ended with an exception (proved exception-safe in cv.wait) */
+#endif
   g_last_wake = nondet_bool() ? thread_restart_state_signaled : thread_restart_state_timeout;
   return g_last_wake;
 }
